@@ -156,6 +156,7 @@ func c16Scenarios(tier string) []engine.Scenario {
 		order  string
 		after  int
 		json   bool
+		long   bool // LockWindow 5 min / LockDuration 12 h and a 90 s wait: texts that depend on how long a lock has left
 	}
 	var vs []v
 	subsets := [][]string{nil, {"confirm"}, {"remember"}, {"confirm", "remember", "totp2fa"}}
@@ -173,13 +174,17 @@ func c16Scenarios(tier string) []engine.Scenario {
 					orders = []string{"lc", "cl"}
 				}
 				for _, ord := range orders {
-					vs = append(vs, v{fmt.Sprintf("extras=%v,order=%s,after=%d,json=%v", sub, ord, after, js), sub, ord, after, js})
+					vs = append(vs, v{fmt.Sprintf("extras=%v,order=%s,after=%d,json=%v", sub, ord, after, js), sub, ord, after, js, false})
 				}
 			}
 		}
 	}
+	vs = append(vs, v{"extras=[],order=lc,after=2,json=false,long-durations", nil, "lc", 2, false, true})
 	for _, x := range vs {
 		cfg := c04cfg{x.after, 10 * time.Second, 30 * time.Second}
+		if x.long {
+			cfg = c04cfg{x.after, 5 * time.Minute, 12 * time.Hour}
+		}
 		mods := []string{"auth", "otp", "recover"}
 		hasConfirm := false
 		for _, e := range x.extras {
@@ -206,7 +211,7 @@ func c16Scenarios(tier string) []engine.Scenario {
 		mods = append(mods, "logout")
 		hasTOTP := strings.Contains(x.name, "totp2fa")
 		sc := engine.Scenario{
-			Name: x.name, Depth: depth, Sat: 31 * time.Second,
+			Name: x.name, Depth: depth, Sat: cfg.d + time.Second,
 			Cfg: world.Config{Modules: mods, JSON: x.json, LockAfter: cfg.after, LockWindow: cfg.w, LockDuration: cfg.d},
 			Init: func(s *world.Stack) *world.World {
 				w := world.NewWorld("B1", "B2")
@@ -255,6 +260,9 @@ func c16Scenarios(tier string) []engine.Scenario {
 			a = append(a, flows.AdminLock(U1), flows.AdminUnlock(U1))
 			a = append(a, flows.A("recover-start(B1,u1)", func(s *world.Stack, _ *world.World) world.Req { return flows.RecoverStart(s, b, U1) }, U1))
 			a = append(a, waitActs(cfg.w+time.Second, cfg.d+time.Second)...)
+			if x.long {
+				a = append(a, waitActs(90*time.Second)...)
+			}
 			return a
 		}
 		out = append(out, sc)
